@@ -88,7 +88,7 @@ end macro;
 
 begin
 Gen:      while gen > 0 do
-            with e \in GenEdits(input) do input := e end with;
+            input := RandomElement(GenEdits(input));       \* simulation only (GenSteps = 0 when model checking)
             gen := gen - 1;
           end while;
 Start:    Eat(1);
@@ -380,8 +380,7 @@ Init == (* Global variables *)
 
 Gen == /\ pc = "Gen"
        /\ IF gen > 0
-             THEN /\ \E e \in GenEdits(input):
-                       input' = e
+             THEN /\ input' = RandomElement(GenEdits(input))
                   /\ gen' = gen - 1
                   /\ pc' = "Gen"
              ELSE /\ pc' = "Start"
